@@ -78,10 +78,34 @@ fn record(p: &Prog, sols: Option<&Vec<Vec<T>>>, out: &mut Out, tagstat: &str) {
         out.stat("programs_without_answers");
     }
     out.push(p.line_f(fuel), line, fail, nt);
+    // STATE-LEVEL correspondence (see c16.rs): for programs whose variables are all program variables (no `fresh`,
+    // no relation call), the substitution and the DISEQUALITY STORE (pairs walk*ed, sorted) of every state the body
+    // goal delivers, real State vs model State — before purification/reification filter anything out
+    // (with two or more stored disequalities the store's normal form may depend on the order in which they are re-run —
+    // equivalent but differently written constraints survive; the dump is compared when at most one `!=` is posted)
+    if tagstat == "written_order" && !p.line().contains("fresh") && !p.line().contains("call") && p.line().matches("neq").count() <= 1 {
+        let d = Prog { nq: p.nvars, raw: true, take: 0, ..p.clone() };
+        let dump = run_raw_dump(&d, 200_000);
+        let t = last_ticks();
+        let f2 = if dump.ends_with("BUDGET") { 1500 } else { 4 * t + 200 };
+        out.stat("state_dumps");
+        if !dump.contains("C[]") && dump.contains("C[") {
+            out.stat("state_dumps_with_stored_disequalities");
+        }
+        out.push(d.line_f(f2).replacen(" raw", " rst", 1), dump, None, true);
+    }
 }
 
 pub fn replay(line: &str, out: &mut Out) {
-    record(&Prog::parse(line), None, out, "replay");
+    let p = Prog::parse(line);
+    if line.split_whitespace().nth(4).map(|f| f.starts_with("rst")).unwrap_or(false) {
+        let dump = run_raw_dump(&p, 200_000);
+        let t = last_ticks();
+        let f2 = if dump.ends_with("BUDGET") { 1500 } else { 4 * t + 200 };
+        out.push(p.line_f(f2).replacen(" raw", " rst", 1), dump, None, true);
+        return;
+    }
+    record(&p, None, out, "replay");
 }
 
 pub fn run(seed: u64, thorough: bool, out: &mut Out) {
